@@ -140,7 +140,7 @@ Definition encode_instr (le : bool) (asize : nat) (i : instr) : list Z :=
   opcode_of i :: operands_of le asize i.
 
 Definition encode_instrs (le : bool) (asize : nat) (is : list instr) : list Z :=
-  concat (map (encode_instr le asize) is).
+  List.concat (map (encode_instr le asize) is).
 
 (* operand ranges *)
 Definition fits_u (n : nat) (v : Z) : bool := (0 <=? v) && (v <? 2 ^ (8 * Z.of_nat n)).
